@@ -99,6 +99,10 @@ func (h *NFSProcedureHandler) handleSetattr(body io.Reader, reply *RPCReply, aut
 		return nfsErrorWithWcc(reply, NFSERR_STALE), nil
 	}
 
+	if isSymlinkNode(node) {
+		return nfsErrorWithWcc(reply, NFSERR_INVAL), nil
+	}
+
 	preAttrs, err := h.server.handler.GetAttr(node)
 	if err != nil {
 		return nfsErrorWithWcc(reply, mapError(err)), nil
